@@ -25,7 +25,7 @@ theorem waiter_returns_only_after_full_stop (g0 : G) (h0 : Initial g0) (sched : 
   intro w hw ok hok
   have I := inv_run _ sched (inv_initial g0 h0)
   obtain ⟨h1, h12⟩ := (I.ws w hw).ret ok hok
-  have hok' := okNow_of_stage I h12
+  have hok' := okNow_of_stage I.toInvCore h12
   simp only [okNow, snapshotOk, Bool.and_eq_true, beq_iff_eq, hasPostStop_run] at hok'
   exact ⟨h1, hok'.1, hok'.2⟩
 
@@ -42,7 +42,7 @@ ever left blocked. -/
 theorem no_lost_wakeup_progress (g0 : G) (h0 : Initial g0) (sched : List Tid) (i : Nat)
     (hf : (run g0 sched).exiter.finished = true) (hr : 0 < remaining (run g0 sched) i) :
     remaining (step (run g0 sched) (.w i)) i < remaining (run g0 sched) i :=
-  waiter_progress _ i (inv_run _ sched (inv_initial g0 h0)) hf hr
+  waiter_progress _ i (inv_run _ sched (inv_initial g0 h0)).toInvCore hf hr
 
 /-- (no lost wake-up, fairness form) After the exiter has finished, every waiter that is scheduled
 three more times — whatever else runs in between — and is not abandoned has returned. -/
@@ -60,20 +60,52 @@ theorem no_lost_wakeup (g0 : G) (h0 : Initial g0) (sched more : List Tid) (i : N
     · omega
   omega
 
-/-- (they do complete) The exit sequence itself is never blocked: after 15 steps of the exiter,
-whatever else is scheduled in between, it has finished — so together with `no_lost_wakeup` every
-fair schedule lets every waiter that is not abandoned return. -/
+/-- (they do complete) The exit sequence itself is never blocked — not even when one statement of
+`ActorLifecycleGuard::cleanup` panics (`Tid.unwind`): the guard is still armed, so its `Drop` runs
+`cleanup` again from the top. After 19 steps of the exiter, whatever else is scheduled in between
+(waiters, drainers, a successor taking the freed name, one such panic), it has finished — so together
+with `no_lost_wakeup` every fair schedule lets every waiter that is not abandoned return. -/
 theorem exiter_always_finishes (g0 : G) (h0 : Initial g0) (sched : List Tid)
-    (hcount : 15 ≤ sched.count .e) : (run g0 sched).exiter.finished = true :=
-  exiter_finishes g0 sched (inv_initial g0 h0) (by omega)
+    (hcount : 19 ≤ sched.count .e) : (run g0 sched).exiter.finished = true := by
+  apply exiter_finishes g0 sched (inv_initial g0 h0)
+  have : g0.exiter.pc.stage = 0 := by rw [h0.exiter]; rfl
+  simp only [exiterDebt, this]
+  split <;> omega
 
-/-- (monotone) The status word never decreases — for any callers and any values. -/
+/-- The lifecycle guard stays armed until the exit sequence has finished: a panic inside `cleanup`
+always finds it armed (this is what makes the re-run, and hence the release of the waiters, happen). -/
+theorem guard_armed_until_finished (g0 : G) (h0 : Initial g0) (sched : List Tid)
+    (h : (run g0 sched).exiter.finished = false) : (run g0 sched).exiter.armed = true := by
+  have I := inv_run _ sched (inv_initial g0 h0)
+  apply I.armed
+  have := stage_le (run g0 sched).exiter.pc
+  by_cases h15 : (run g0 sched).exiter.pc.stage = 15
+  · rw [stage_finished h15] at h; cases h
+  · omega
+
+/-- (cleanup once, seen from outside) A successor that registered the freed name while the old
+actor was still exiting keeps it: no later step of the old actor's exit — whatever drains, panics
+or late `set_status` calls happen — unregisters the name a second time. -/
+theorem successor_keeps_name (g0 : G) (h0 : Initial g0) (sched more : List Tid)
+    (hs : (run g0 sched).sh.name = .succ) : (run (run g0 sched) more).sh.name = .succ := by
+  have I := inv_run _ sched (inv_initial g0 h0)
+  generalize run g0 sched = g at *
+  induction more generalizing g with
+  | nil => exact hs
+  | cons t l ih =>
+    simp only [run, List.foldl_cons]
+    exact ih _ (successor_keeps_name_step g t I hs) (inv_step g t I)
+
+/-- (monotone) The status word never decreases — for any `set_status` callers and values, and for
+`drain()` issued at any position of the exit sequence (its `fetch_update` lifts only a status below
+`Stopping`). -/
 theorem status_monotone (g : G) (sched : List Tid) (h : OnceInv g.sh) :
     g.sh.status ≤ (run g sched).sh.status :=
   (run_once g sched h).2
 
 /-- (once) The cleanup block and the notify block of `set_status` are each elected at most once,
-whatever `set_status` calls are made by whichever threads (any values, any interleaving). -/
+whatever `set_status` calls are made by whichever threads (any values, any interleaving), also
+with drains at any position and with `cleanup` re-run after a panic. -/
 theorem cleanup_elected_once (g0 : G) (h0 : g0.sh.cleanupRuns = 0 ∧ g0.sh.notifyRuns = 0)
     (sched : List Tid) :
     (run g0 sched).sh.cleanupRuns ≤ 1 ∧ (run g0 sched).sh.notifyRuns ≤ 1 := by
@@ -151,10 +183,20 @@ example : (run (init false [6] [] 2) ([.w 0, .w 0, .abandon 0] ++ List.replicate
 /-- the hypotheses of the theorems also cover an exit after `drain()` (status `Draining`) and after
 a kill signal (children already terminated) -/
 example : Initial { (init false [] [] 2) with sh := { status := 4, flags := { terminated := true } } } := by
-  refine ⟨rfl, by decide, rfl, rfl, ⟨rfl, rfl⟩, ?_, rfl⟩
+  refine ⟨rfl, rfl, rfl, by decide, rfl, rfl, ⟨rfl, rfl⟩, ?_, rfl⟩
   intro w hw
   simp only [init, List.mem_replicate] at hw
   exact hw.2
+
+/-- a drain arriving while the actor is parked in `post_stop` (status `Stopping`) changes nothing;
+a successor takes the freed name and keeps it; `cleanup.notify` panics, `cleanup` is re-run, and
+both waiters are released -/
+example :
+    let g := run (init true [] [] 2 1)
+      ([.w 0, .w 0] ++ List.replicate 5 .e ++ [.d 0, .succ] ++ List.replicate 4 .e ++ [.unwind]
+        ++ List.replicate 10 .e ++ [.w 0, .w 1, .w 1])
+    g.sh.status = 6 ∧ g.sh.name = .succ ∧ g.sh.cleanupRuns = 1 ∧ g.exiter.finished = true
+      ∧ g.waiters.map (·.pc) = [.returned true, .returned true] := by decide
 
 end C06
 
@@ -163,6 +205,8 @@ end C06
 #print axioms C06.no_lost_wakeup_progress
 #print axioms C06.no_lost_wakeup
 #print axioms C06.exiter_always_finishes
+#print axioms C06.guard_armed_until_finished
+#print axioms C06.successor_keeps_name
 #print axioms C06.status_monotone
 #print axioms C06.cleanup_elected_once
 #print axioms C06.abandon_changes_nothing
